@@ -17,9 +17,18 @@ RULES = {
     "badcased": {"title": "badcased", "name": "badcased", "logsource": {"category": "c", "product": "linux"}, "detection": {"s": {"User|expand|cased": "/home/%unknown%/*", "k": "v"}, "condition": "s"}},
     "strict": {"title": "strict", "name": "strict", "logsource": {"category": "m"}, "detection": {"s": {"fieldA": "probe"}, "condition": "s"}},
     "sel": {"title": "sel", "name": "sel", "logsource": {"category": "c", "product": "windows"}, "detection": {"sel_a": {"f": "1"}, "sel_b": {"f|exists": False}, "condition": "1 of sel_* and not sel_b"}},
+    # the same TEXT with different meaning in different rules: a number and a string, a literal %x% and a placeholder, a plain and a
+    # case-sensitive value (whatever a step remembers about one of them must not answer for the other)
+    "portnum": {"title": "portnum", "name": "portnum", "logsource": {"category": "n"}, "detection": {"s": {"port": 8443}, "condition": "s"}},
+    "portstr": {"title": "portstr", "name": "portstr", "logsource": {"category": "n"}, "detection": {"s": {"port": "8443"}, "condition": "s"}},
+    "litph": {"title": "litph", "name": "litph", "logsource": {"category": "n"}, "detection": {"s": {"Path": ["%homedir%", "/root"]}, "condition": "s"}},
+    "realph": {"title": "realph", "name": "realph", "logsource": {"category": "n"}, "detection": {"s": {"Path|expand": ["%homedir%", "/root"]}, "condition": "s"}},
+    "casedA": {"title": "casedA", "name": "casedA", "logsource": {"category": "n"}, "detection": {"s": {"f|cased": "a"}, "condition": "s"}},
 }
 FILTER = {"title": "F", "logsource": {"category": "c"}, "filter": {"rules": "any", "adm": {"User|startswith": "adm"}, "condition": "not adm"}}
 PIPELINE = {"name": "p", "priority": 10, "vars": {"admins": ["root", "admin"]}, "transformations": [
+    # (before replace_string, which turns numbers into text)
+    {"id": "strport", "type": "detection_item_failure", "message": "port must be a number", "detection_item_conditions": [{"type": "match_string", "cond": "any", "pattern": "^8443$"}], "rule_conditions": [{"type": "logsource", "category": "n"}]},
     {"id": "ac", "type": "add_condition", "conditions": {"source": "wineventlog"}, "rule_conditions": [{"type": "logsource", "product": "windows"}]},
     {"id": "st", "type": "set_state", "key": "index", "val": "win", "rule_conditions": [{"type": "logsource", "product": "windows"}]},
     {"id": "vp", "type": "value_placeholders", "include": ["admins"]},
